@@ -162,8 +162,11 @@ static sqf::runtime::runtime::result execute_do(sqf::runtime::runtime& runtime, 
                 "    " << "\x1B[36mEXIT execute_do\033[0m as max runtime (\x1B[90m" << runtime.configuration().max_runtime.count() << "ms\033[0m) was reached" << std::endl;
 #endif // DF__SQF_RUNTIME__ASSEMBLY_DEBUG_ON_EXECUTE
             runtime.__logmsg(logmessage::runtime::MaximumRuntimeReached((*instruction)->diag_info(), runtime.configuration().max_runtime));
+            // the diagnostic is the report; the raised flag must not be blamed on a later run,
+            // and a run that was cut short did not succeed
+            runtime_error = false;
             runtime.exit(0);
-            return sqf::runtime::runtime::result::ok;
+            return sqf::runtime::runtime::result::runtime_error;
         }
 
         // Check if breakpoint was hit
